@@ -30,7 +30,7 @@ def monitor(case, evs):
             base = (1 << min(max(poll, 0), 31)) * 10 ** 9
             if not (101 * base // 100 - 1 <= t[0] <= 105 * base // 100 + 1):
                 return ("event %d: timer of %d ns after a request with exponent %d is outside [1.01, 1.05] * 2^%d s"
-                        % (k, t[0], poll, poll), here)
+                        % (k, t[0], poll, min(max(poll, 0), 31)), here)
     return None
 
 
